@@ -3,6 +3,7 @@ from ..main import run_rule
 from ..flow import (resolver, peel, root_local, guards_of, aggregates, forward, forward_with_control,
                     backward, operand_locals)
 from ..facts import AnchorMissing
+from ..symexec import SymExec
 from . import C09, C18, shared
 
 LEVEL = ('decides the discipline around explanations, not their logic: propagators and constraints '
@@ -602,6 +603,156 @@ def l20(led, rid, ctx):
     led.floor(rid, "propagators with accumulated un-trailed state", n, 1)
 
 
+STATE_READS = ("lower_bound", "upper_bound", "contains", "is_fixed", "is_literal_true", "is_literal_false",
+               "is_literal_fixed", "is_predicate_satisfied", "is_predicate_falsified", "value", "is_assigned",
+               "get_assigned_value", "lower_bound_at_trail_position", "upper_bound_at_trail_position")
+SELECTING = ("filter", "filter_map", "take", "skip", "take_while", "skip_while", "step_by", "retain")
+# state-dependent selections in reasons that were argued correct by hand: (file suffix, function) -> reason
+L22_JUSTIFIED = {}
+
+
+def _reads_state(lib, g, depth=0):
+    """a read of the current domains whose result decides a branch (or the returned bool) of closure g"""
+    if g is None or depth > 3:
+        return None
+    discr = set()
+    for b in g.blocks:
+        t = b["term"]
+        if t["t"] == "switch":
+            discr |= set(operand_locals(t["discr"]))
+    discr.add(0)
+    ret_bool = (g.rec.get("ret") or "") == "bool"
+    for c in g.calls:
+        if c.dst is None:
+            continue
+        inner = None
+        if c.name in STATE_READS:
+            inner = c
+        elif c.name in ("call", "call_mut", "call_once"):
+            for h in lib.callees(c):
+                if _reads_state(lib, h, depth + 1) is not None or any(x.name in STATE_READS for x in h.calls):
+                    inner = c
+        if inner is None:
+            continue
+        t = forward(g, [c.dst["local"]], effects=False) | {c.dst["local"]}
+        sel = (t & discr) - ({0} if not ret_bool else set())
+        if sel:
+            return c
+    return None
+
+
+def l22(led, rid, ctx):
+    """an eager reason built by iterating over the constraint's variables leaves elements out only by
+    position (the propagated variable itself), never by a test on the current domains: a fact that
+    is dominated *now* is still needed for the nogood learned from the reason to hold elsewhere"""
+    lib = ctx.lib
+    n = 0
+    for f in lib.fns.values():
+        if "/tests" in f.file or not ("/propagators/arithmetic" in f.file or f.file.endswith("/propagators/element.rs")):
+            continue
+        R = None
+        for c in f.calls:
+            if c.name not in ("set_upper_bound", "set_lower_bound", "remove", "assign_literal", "post_predicate", "post") \
+                    or len(c.args) < 3:
+                continue
+            R = R or resolver(f)
+            e = R.operand(c.args[-1])
+            if any(x.k == "agg" and (x.b or "").startswith("DynamicLazy") for x in e.walk()):
+                continue        # a lazy reason: its payload is a value, the facts are built later
+            for x in e.walk():
+                if x.k != "call" or x.a.name not in SELECTING:
+                    continue
+                n += 1
+                culprit = None
+                for a in x.b[1:]:
+                    y = peel(a, calls=None)
+                    if y.k == "closure":
+                        r = _reads_state(lib, lib.fns.get(y.a))
+                        if r is not None:
+                            culprit = r
+                key = (f.file.rsplit("/", 1)[-1], f.name)
+                if culprit is not None and key in L22_JUSTIFIED:
+                    led.ok(rid, "%s:%s:%s" % (key[0], f.name, x.a.name), c.span, "JUSTIFIED: " + L22_JUSTIFIED[key])
+                    continue
+                led.check(culprit is None, rid, "%s:%s:%s" % (key[0], f.name, x.a.name), c.span,
+                          "selection by position only",
+                          "%s (%s) builds the reason of %s with `%s` over a test that reads the current domains (%s): "
+                          "the facts it leaves out are only dominated in this state, so the reason is not sufficient "
+                          "and nogoods learned from it remove solutions"
+                          % (f.name, key[0], c.name, x.a.name, culprit.name if culprit else ""))
+    led.floor(rid, "selecting adaptors in eager reasons", n, 3)
+
+
+def l23(led, rid, ctx):
+    """MUST-PASS: a lazy explanation that is handed out from a buffer of the propagator rebuilds the
+    buffer on every call (the clear dominates every return): what is in the buffer belongs to the
+    state of an earlier call"""
+    lib = ctx.lib
+    n = 0
+    for imp in lib.impls_of("Propagator"):
+        if "/tests" in imp["span"]:
+            continue
+        f = lib.impl_fn(imp, "lazy_explanation")
+        if f is None:
+            continue
+        R = resolver(f)
+        who = (imp.get("self_adt") or "?").rsplit("::", 1)[-1]
+        filled = {}
+        for c in f.calls:
+            if c.name in ("push", "extend", "extend_from_slice", "insert", "append") and c.args:
+                fl = [x for x in R.operand(c.args[0]).fields()]
+                if fl:
+                    filled.setdefault(fl[-1], c)
+        returned = set()
+        for pth in SymExec(f, max_paths=200).run():
+            if pth.ret is not None:
+                returned |= set(pth.ret.fields())
+        for fld, c in filled.items():
+            if fld not in returned:
+                continue
+            clears = [x for x in f.calls if x.name in ("clear", "truncate") and x.args and fld in R.operand(x.args[0]).fields()]
+            n += 1
+            ok = any(all(f.cfg.dominates(x.bb, r) for r in f.cfg.returns) for x in clears)
+            led.check(ok, rid, "%s:lazy_explanation:%s-rebuilt" % (who, fld), c.span, "clear dominates every return",
+                      "%s::lazy_explanation can return without rebuilding `%s`: the buffer then holds the explanation "
+                      "of an earlier call (another propagation, or the same trail position reached again after a "
+                      "backjump), whose facts need not hold in the state now explained" % (who, fld))
+    led.floor(rid, "buffered lazy explanations", n, 1)
+
+
+# the only places where tasks leave a profile: both undo a mandatory part on backtrack
+L24_SITES = {
+    ("removal.rs", "remove_task_from_profile"): "over-interval incremental: a mandatory part shrank on backtrack",
+    ("time_table_per_point_incremental.rs", "{closure}"): "per-point incremental: a mandatory part shrank on backtrack",
+}
+
+
+def l24(led, rid, ctx):
+    """WHO-MAY-SHRINK: the tasks of a resource profile are what conflict and propagation
+    explanations are built from; they are removed only where a mandatory part is undone"""
+    lib = ctx.lib
+    n = 0
+    seen = set()
+    for f in lib.fns.values():
+        if "/tests" in f.file or "/cumulative/" not in f.file:
+            continue
+        R = None
+        for c in f.calls:
+            if c.name in ("retain", "remove", "swap_remove", "truncate", "pop", "drain", "clear", "retain_mut",
+                          "split_off", "dedup", "dedup_by_key") and c.args:
+                R = R or resolver(f)
+                if "profile_tasks" not in R.operand(c.args[0]).fields():
+                    continue
+                key = (f.file.rsplit("/", 1)[-1], "{closure}" if f.kind == "Closure" else f.name)
+                n += 1
+                seen.add(key)
+                led.check(key in L24_SITES, rid, "%s:%s:%s" % (key[0], key[1], c.name), c.span, L24_SITES.get(key, ""),
+                          "%s (%s) removes tasks from a profile with `%s`: the explanation built from the profile "
+                          "then names fewer tasks than were counted in its height, and need not overflow the "
+                          "capacity by itself" % (key[1], key[0], c.name))
+    led.floor(rid, "sites that shrink a profile's task list", n, 2)
+
+
 def l21(led, rid, ctx):
     """PropositionalConjunction::extend_and_remove_duplicates is a set union: it treats predicates as
     opaque values (equality / hashing only) and neither drops nor rewrites one because of its content"""
@@ -714,3 +865,6 @@ def run(ctx, led):
     run_rule(led, "L19", "the lazy element reason ranges over every array position", l19, ctx)
     run_rule(led, "L20", "INCREMENTAL-RESET: accumulated un-trailed propagator state is invalidated unconditionally on backtrack", l20, ctx)
     run_rule(led, "L21", "extend_and_remove_duplicates is an opaque set union", l21, ctx)
+    run_rule(led, "L22", "eager reasons over the constraint's variables select by position only, never by a test on the current domains", l22, ctx)
+    run_rule(led, "L23", "MUST-PASS: buffered lazy explanations are rebuilt on every call", l23, ctx)
+    run_rule(led, "L24", "WHO-MAY-SHRINK: tasks leave a resource profile only where a mandatory part is undone", l24, ctx)
